@@ -50,6 +50,8 @@ FAULTS = [
     "release:lon-lat-only+grid-without-ll2xy",
     "forcing:ends-one-step-early+record-starts-years-before", "forcing:ends-early+packed-time-coordinate", "forcing:starts-late+packed-time-coordinate",
     "release:row-with-blank-position", "release:all-half-a-step-before-start", "time:dt-zero-iso", "time:dt-zero-list", "time:dt-negative",
+    # a mandatory section missing from a configuration DICTIONARY handed to Model directly (scripts, notebooks), not through a file
+    "model-dict:no-tracker", "model-dict:no-time", "model-dict:no-forcing", "model-dict:no-release", "model-dict:no-output",
 ]
 PACKED_CONTROL = "control:packed-time-coordinate"  # the same packed files covering the window: must run
 NOLL = "release:lon-lat-only+grid-without-ll2xy"
@@ -270,11 +272,27 @@ def run_one(base, fault, d=None):
     else:  # the same paths are re-used for the next set-up of this scenario: nothing may be remembered about the old files
         for f in d.iterdir():
             f.unlink()
-    path = build(base, fault, d)
+    path = build(base, "none" if fault.startswith("model-dict:") else fault, d)
     events().clear()
     err = None
     try:
-        drive.run_main_file(path)
+        if fault.startswith("model-dict:"):
+            from ladim.configure import configure
+            from ladim.model import Model
+
+            try:
+                config = configure(str(path))
+                del config[fault.split("no-")[1]]
+                model = Model(config)
+                for _ in range(model.timer.Nsteps):
+                    model.update()
+                model.finish()
+            except SystemExit as e:
+                raise drive.RunFailed("SystemExit", repr(e.code)) from e
+            except Exception as e:
+                raise drive.RunFailed(type(e).__name__, str(e)[:300]) from e
+        else:
+            drive.run_main_file(path)
     except drive.RunFailed as e:
         err = f"{e.kind}:{e.detail}"
     loop_started = any(e["mod"] == "ibm" and e["meth"] == "update" for e in events())
@@ -300,6 +318,8 @@ def run_subprocess(base):
     for f in base["faults"]:
         todo += [NOLL_CONTROL, f] if f == NOLL else [PACKED_CONTROL, f] if f == "forcing:ends-early+packed-time-coordinate" else [f]
     for fault in todo:
+        if fault.startswith("model-dict:"):
+            continue  # not expressible on the command line
         if (fault.startswith("release:all-before-start") or fault == "release:all-half-a-step-before-start") and b["cont"]:
             continue
         d = util.scratch("c20s")
